@@ -322,6 +322,178 @@ fn cpp_adaptor(rep: &mut Report) {
     }
 }
 
+
+/// The C++ adaptor executed: `diplomat_runtime.hpp` as generated, compiled by g++ into a shared object that owns a
+/// `std::string` and the `capi::DiplomatWrite` made from it by `WriteFromString`; a child process loads it and the
+/// real Rust `fmt::Write` impl writes through that struct.  Compared with the Lean foreign-writer line for "every
+/// growth grants exactly what was asked" (what `_grow` is modelled as), and with the string's own bookkeeping.
+const CPP_SHIM: &str = r#"
+#include "diplomat_runtime.hpp"
+#include <cstring>
+struct H { std::string s; diplomat::capi::DiplomatWrite w; bool (*orig)(diplomat::capi::DiplomatWrite*, uintptr_t); unsigned bad; uintptr_t req, cap; };
+static H* cur = nullptr;
+static unsigned audit(H* h) {
+    unsigned b = 0;
+    if (h->w.buf != &h->s[0]) b |= 2;            // the window must be the string's own storage
+    if (h->w.cap > h->s.capacity()) b |= 4;       // and must not extend beyond what the string owns
+    if (h->w.len > h->w.cap) b |= 8;
+    return b;
+}
+extern "C" bool vt_checked_grow(diplomat::capi::DiplomatWrite* w, uintptr_t requested) {
+    H* h = cur;
+    bool ok = h->orig(w, requested);
+    if (ok && w->cap < requested) { h->bad |= 1; h->req = requested; h->cap = w->cap; return false; } // refuse: Rust would write past cap
+    h->bad |= audit(h);
+    return ok;
+}
+extern "C" H* vt_mk(const char* p, size_t n) {
+    H* h = new H{std::string(p, n), {}, nullptr, 0, 0, 0};
+    h->w = diplomat::WriteFromString(h->s);
+    h->orig = h->w.grow; h->w.grow = vt_checked_grow; cur = h;
+    h->bad |= audit(h);
+    return h;
+}
+extern "C" diplomat::capi::DiplomatWrite* vt_w(H* h) { return &h->w; }
+extern "C" unsigned vt_audit(H* h) { h->bad |= audit(h); return h->bad; }
+extern "C" uintptr_t vt_req(H* h) { return h->req; }
+extern "C" uintptr_t vt_cap(H* h) { return h->cap; }
+extern "C" size_t vt_size(H* h) { return h->s.size(); }
+extern "C" const char* vt_data(H* h) { return h->s.data(); }
+extern "C" void vt_free(H* h) { delete h; cur = nullptr; }
+"#;
+
+const FLUSH: &str = "\u{1}flush";
+
+fn cpp_cases(rng: &mut Rng, n: usize) -> Vec<(String, Vec<String>)> {
+    let mut v: Vec<(String, Vec<String>)> = vec![
+        ("".into(), vec!["0123456789abcdef".into(), "g".into()]),                       // leaves the small-string buffer
+        ("".into(), vec!["long-long-long-long-long-long-chunk".into(), "a".into(), "b".into(), "tail".into()]),
+        ("pre".into(), vec!["x".into(); 40]),
+        ("a-prefix-longer-than-the-small-string-buffer".into(), vec!["€".into(), "𝄞".into(), "".into(), "z".into()]),
+        ("".into(), vec![]),
+        ("kept".into(), vec!["".into()]),
+        // a flush in the middle (Rust code may call `DiplomatWrite::flush`; one writer may serve two calls)
+        ("".into(), vec!["0123456789abcdefgh".into(), FLUSH.into(), "i".into(), "jk".into()]),
+        ("".into(), vec!["hello".into(), FLUSH.into(), " world".into(), FLUSH.into(), "!".into()]),
+        ("pre".into(), vec!["long-long-long-long-long-long-chunk".into(), FLUSH.into(), "a".into(), FLUSH.into(), FLUSH.into(), "tail".into()]),
+    ];
+    for _ in 0..n {
+        let init = match rng.below(4) { 0 => rng.pick(&["pre", "é", "0123456789abcdef0123"]).to_string(), _ => String::new() };
+        let mut chunks = gen_chunks(rng, 14);
+        if rng.chance(1, 3) { let at = rng.below(chunks.len() + 1); chunks.insert(at, FLUSH.into()); }
+        if rng.chance(1, 3) { chunks.push("y".repeat(1 + rng.below(70))); if rng.chance(1, 2) { chunks.push(FLUSH.into()); } chunks.push(rng.pick(&WORDS).to_string()); chunks.push(rng.pick(&WORDS).to_string()); }
+        v.push((init, chunks));
+    }
+    v
+}
+
+fn hexs(b: &[u8]) -> String { b.iter().map(|x| format!("{x:02x}")).collect() }
+fn unhex(s: &str) -> Vec<u8> { (0..s.len() / 2).map(|i| u8::from_str_radix(&s[2 * i..2 * i + 2], 16).unwrap_or(0)).collect() }
+
+fn cpp_adaptor_exec(rep: &mut Report, rng: &mut Rng, thorough: bool) {
+    let out = crate::tool::run_backend("#[diplomat::bridge]\nmod ffi { #[diplomat::opaque] pub struct O; impl O { pub fn f(&self, w: &mut DiplomatWrite) {} } }", "cpp");
+    let Some(hpp) = out.files.get("diplomat_runtime.hpp") else { return };
+    let dir = util::workdir("c12-cpp");
+    let _ = std::fs::remove_dir_all(&dir);
+    std::fs::create_dir_all(&dir).unwrap();
+    std::fs::write(dir.join("diplomat_runtime.hpp"), hpp).unwrap();
+    std::fs::write(dir.join("shim.cpp"), CPP_SHIM).unwrap();
+    let so = dir.join("libshim.so");
+    let (ok, _o, e) = util::run(std::process::Command::new("g++").args(["-std=c++17", "-O1", "-shared", "-fPIC", "-I."]).arg("shim.cpp").arg("-o").arg(&so).current_dir(&dir));
+    if !ok {
+        rep.oracle_fail("(c12 probe cpp-adaptor-exec)", "diplomat_runtime.hpp does not compile into the string-writer shim", json!({"g++": e.lines().take(8).collect::<Vec<_>>()}));
+        return;
+    }
+    let cases = cpp_cases(rng, if thorough { 1500 } else { 150 });
+    // the model's foreign writer with "every growth grants exactly the request" and the prefix as initial contents
+    let lines: Vec<String> = cases.iter().map(|(init, chunks)| {
+        let grows = chunks.len() + 2;
+        let chunks: Vec<String> = chunks.iter().filter(|c| *c != FLUSH).cloned().collect(); // the model's foreign flush leaves the state alone
+        Case::Foreign { cap: init.len(), init: init.clone(), chunks: chunks.clone(), answers: vec![Some(0); grows] }.sexp()
+    }).collect();
+    let model = match crate::model::run_model("C12", &lines) { Ok(m) => m, Err(e) => { rep.disagree("cpp-adaptor-exec", "model-driver", "", &e); return; } };
+    let input: String = cases.iter().map(|(i, cs)| format!("{} {}\n", if i.is_empty() { "-".into() } else { hexs(i.as_bytes()) }, cs.iter().map(|c| if c.is_empty() { "-".to_string() } else { hexs(c.as_bytes()) }).collect::<Vec<_>>().join(","))).collect();
+    std::fs::write(dir.join("cases.txt"), &input).unwrap();
+    let exe = std::env::current_exe().unwrap();
+    let o = std::process::Command::new(exe).arg("C12-cpp-child").arg(&so).arg(dir.join("cases.txt")).output();
+    rep.oracle_runs += 1;
+    let o = match o { Ok(o) => o, Err(e) => { rep.notes.push(format!("C++ adaptor child could not be started: {e}")); return; } };
+    let text = String::from_utf8_lossy(&o.stdout).to_string();
+    let got: Vec<&str> = text.lines().collect();
+    for (i, ((init, chunks), m)) in cases.iter().zip(model.iter()).enumerate() {
+        let case = format!("(c12 cpp-adaptor init={init:?} chunks={chunks:?})");
+        rep.count("cpp-adaptor-exec");
+        let Some(l) = got.get(i) else {
+            rep.oracle_fail(&case, "the process died while Rust wrote through the C++ string adaptor (memory error)", json!({"status": format!("{}", o.status), "stderr": String::from_utf8_lossy(&o.stderr).lines().take(4).collect::<Vec<_>>()}));
+            break;
+        };
+        // child line: bad=<mask> req=<r> cap=<c> len=<w.len> failed=<b> size=<s.size()> bytes=<hex of the string>
+        let f: std::collections::BTreeMap<&str, &str> = l.split(' ').filter_map(|kv| kv.split_once('=')).collect();
+        let bad: u32 = f.get("bad").and_then(|x| x.parse().ok()).unwrap_or(255);
+        let bytes = unhex(f.get("bytes").unwrap_or(&""));
+        let mut expected: Vec<u8> = init.as_bytes().to_vec();
+        for c in chunks.iter().filter(|c| *c != FLUSH) { expected.extend_from_slice(c.as_bytes()); }
+        if chunks.iter().any(|c| c == FLUSH) { rep.count("cpp-adaptor-exec:mid-flush"); }
+        if bad & 1 != 0 {
+            rep.oracle_fail(&case, "the C++ `_grow` callback reports success with a capacity below the request: Rust would write past the string's storage", json!({"requested": f.get("req"), "capacity_granted": f.get("cap")}));
+        }
+        if bad & 6 != 0 {
+            rep.oracle_fail(&case, "the window advertised to Rust is not inside the std::string's own storage", json!({"mask": bad, "line": l}));
+        }
+        if bad & 1 == 0 && bytes != expected {
+            rep.oracle_fail(&case, "the std::string handed back to the C++ caller is not what Rust wrote", json!({"string": show_bytes(&bytes), "expected": show_bytes(&expected), "line": l}));
+        }
+        // tie with the model line: len=… failed=… bytes=…
+        let mf: std::collections::BTreeMap<&str, &str> = m.split(' ').filter_map(|kv| kv.split_once('=')).collect();
+        let real = format!("len={} failed={} bytes={}", f.get("len").unwrap_or(&"?"), f.get("failed").unwrap_or(&"?"), show_bytes(&bytes));
+        let modl = format!("len={} failed={} bytes={}", mf.get("len").unwrap_or(&"?"), mf.get("failed").unwrap_or(&"?"), mf.get("bytes").unwrap_or(&"?"));
+        if real != modl {
+            rep.disagree(&case, "cpp-adaptor-state", &real, &modl);
+        }
+    }
+}
+
+pub fn cpp_child(args: &[String]) {
+    use std::os::raw::{c_char, c_int};
+    extern "C" {
+        fn dlopen(f: *const c_char, flag: c_int) -> *mut c_void;
+        fn dlsym(h: *mut c_void, s: *const c_char) -> *mut c_void;
+    }
+    let so = std::ffi::CString::new(args[0].clone()).unwrap();
+    unsafe {
+        let h = dlopen(so.as_ptr(), 2);
+        if h.is_null() { eprintln!("dlopen failed"); std::process::exit(3); }
+        let sym = |n: &str| { let c = std::ffi::CString::new(n).unwrap(); let p = dlsym(h, c.as_ptr()); assert!(!p.is_null(), "{n}"); p };
+        let mk: extern "C" fn(*const u8, usize) -> *mut c_void = std::mem::transmute(sym("vt_mk"));
+        let wf: extern "C" fn(*mut c_void) -> *mut DiplomatWrite = std::mem::transmute(sym("vt_w"));
+        let audit: extern "C" fn(*mut c_void) -> u32 = std::mem::transmute(sym("vt_audit"));
+        let req: extern "C" fn(*mut c_void) -> usize = std::mem::transmute(sym("vt_req"));
+        let cap: extern "C" fn(*mut c_void) -> usize = std::mem::transmute(sym("vt_cap"));
+        let size: extern "C" fn(*mut c_void) -> usize = std::mem::transmute(sym("vt_size"));
+        let data: extern "C" fn(*mut c_void) -> *const u8 = std::mem::transmute(sym("vt_data"));
+        let free: extern "C" fn(*mut c_void) = std::mem::transmute(sym("vt_free"));
+        let text = std::fs::read_to_string(&args[1]).unwrap();
+        for line in text.lines() {
+            let (i, cs) = line.split_once(' ').unwrap_or((line, ""));
+            let init = if i == "-" { vec![] } else { unhex(i) };
+            let chunks: Vec<String> = if cs.is_empty() { vec![] } else { cs.split(',').map(|c| if c == "-" { String::new() } else { String::from_utf8(unhex(c)).unwrap() }).collect() };
+            let hd = mk(init.as_ptr(), init.len());
+            let w = &mut *wf(hd);
+            let mut bad = 0u32;
+            for ch in &chunks {
+                if ch == FLUSH { w.flush(); } else { let _ = emit(w, ch); }
+                bad |= audit(hd);
+            }
+            w.flush();
+            let rw = &*(w as *mut DiplomatWrite as *mut RawWrite);
+            let n = size(hd);
+            let bytes = std::slice::from_raw_parts(data(hd), n).to_vec();
+            println!("bad={} req={} cap={} len={} failed={} size={} bytes={}", bad | (audit(hd) & 1), req(hd), cap(hd), rw.len, rw.grow_failed, n, hexs(&bytes));
+            free(hd);
+        }
+    }
+}
+
 pub fn main(args: &[String]) {
     let a = util::parse_args(args);
     assert_eq!(std::mem::size_of::<RawWrite>(), std::mem::size_of::<DiplomatWrite>());
@@ -364,6 +536,7 @@ pub fn main(args: &[String]) {
     }
     util::breadcrumb_clear("C12");
     cpp_adaptor(&mut rep);
+    cpp_adaptor_exec(&mut rep, &mut rng, thorough);
     macro_flush_probe(&mut rep);
     rep.print();
 }
